@@ -308,7 +308,7 @@ def make_ins(save_log_q, iid):
         from nessai.proposal.importance import ImportanceFlowProposal
         hi = None if ctx.mode == "sym" else 50
         n_eval = ctx.int("evals", 0, hi)
-        model = _Model(0, 0.0)
+        model = _Model(0, 7.5)        # 7.5 s spent evaluating likelihoods before the checkpoint
         model.likelihood_evaluations = n_eval
         ins = ImportanceNestedSampler.__new__(ImportanceNestedSampler)
         ins.model = model
@@ -405,6 +405,7 @@ def make_ins(save_log_q, iid):
             ctx.fail("INS resume raised " + type(e).__name__, str(e))
             return
         ctx.prove(model2.likelihood_evaluations == n_eval, "INS: evaluation count continues from the checkpoint")
+        ctx.prove(abs(model2.likelihood_evaluation_time.total_seconds() - 7.5) < 1e-6, "INS: likelihood-evaluation time continues from the checkpoint")
         ctx.prove(new.model is model2 and new.proposal.resumed_with[0] is model2, "INS: the new model is attached to sampler and proposal")
         want = [new.training_samples.samples] + ([new.iid_samples.samples] if iid else [])
         if save_log_q:
